@@ -15,6 +15,9 @@
 //     slow call too or not (statement lists success / failure / slow as kinds, docs call any
 //     request longer than the threshold slow);
 //   - maxWaitDurationInHalfOpenState exactly elapsed;
+//   - a call arriving in HALF_OPEN after maxWait elapsed while a trial slot is still free: admitted as
+//     a trial ("only the first permitted calls are admitted") or rejected with the breaker reopening
+//     ("maxWait reopens a stalled half-open breaker");
 //   - HALF_OPEN with min(minimumNumberOfCalls, permitted) <= recorded trials < permitted: the
 //     statement says the trials' results close or reopen the breaker but not after how many; the
 //     model lets the breaker decide now or wait for more trials; with all permitted trials
@@ -29,8 +32,9 @@
 //   - OPEN rejects every call while now - transit < waitDurationInOpenState; the first call at or
 //     after that instant moves the breaker to HALF_OPEN (fresh trial window, `permitted` slots) and
 //     is handled there;
-//   - HALF_OPEN admits exactly the first `permitted` calls; further calls are rejected and, when
-//     maxWait > 0 and more than maxWait passed since entering HALF_OPEN, reopen the breaker;
+//   - HALF_OPEN admits the first `permitted` calls (see the open question above) and no others;
+//     further calls are rejected and, when maxWait > 0 and more than maxWait passed since entering
+//     HALF_OPEN, reopen the breaker;
 //   - results of calls admitted in an earlier state (epoch) are ignored;
 //   - every state change starts a new epoch; entering CLOSED starts with an empty window.
 package c08model
@@ -238,12 +242,20 @@ func (m *M) acquire(call int, now int64) []Succ {
 	}
 	// HALF_OPEN
 	if n.HoAdm < n.P.Permitted {
+		var out []Succ
+		if n.P.MaxWait > 0 && now-n.Transit >= n.P.MaxWait {
+			// A slot is free although maxWait has elapsed: "the first permitted calls are admitted"
+			// and "maxWait reopens a stalled half-open breaker" pull in different directions.
+			info.AfterMaxWait = true
+			info.Ambiguous = "free-slot-after-maxwait"
+			o := n.clone()
+			oi := info
+			o.transit(Open, now, &oi)
+			out = append(out, Succ{Permit: false, M: o, Info: oi})
+		}
 		n.HoAdm++
 		n.setAdm(call, n.Epoch)
-		if n.P.MaxWait > 0 && now-n.Transit > n.P.MaxWait {
-			info.AfterMaxWait = true
-		}
-		return []Succ{{Permit: true, M: n, Info: info}}
+		return append([]Succ{{Permit: true, M: n, Info: info}}, out...)
 	}
 	if n.P.MaxWait > 0 {
 		el := now - n.Transit
